@@ -93,6 +93,33 @@ func (v *VMValue) ArrayFuncKeepBase(ctx *Context, pickNum IntType, orderType int
 	return isAllInt, num
 }
 
+// arrayKeepInts is ArrayFuncKeepBase for arrays whose numbers are all
+// integers, summed as integers (float64 cannot hold every IntType exactly).
+func (v *VMValue) arrayKeepInts(pickNum IntType, orderType int) (IntType, bool) {
+	arr, _ := v.ReadArray()
+	var nums []IntType
+	for _, i := range arr.List {
+		switch i.TypeId {
+		case VMTypeInt:
+			nums = append(nums, i.MustReadInt())
+		case VMTypeFloat:
+			return 0, false
+		}
+	}
+
+	if orderType == 0 {
+		sort.Slice(nums, func(i, j int) bool { return nums[i] > nums[j] }) // 从大到小
+	} else if orderType == 1 {
+		sort.Slice(nums, func(i, j int) bool { return nums[i] < nums[j] }) // 从小到大
+	}
+
+	num := IntType(0)
+	for i := IntType(0); i < pickNum && i < IntType(len(nums)); i++ {
+		num += nums[i]
+	}
+	return num, true
+}
+
 func (v *VMValue) ArrayFuncKeepHigh(ctx *Context, pickNum IntType) (isAllInt bool, ret float64) {
 	return v.ArrayFuncKeepBase(ctx, pickNum, 0)
 }
